@@ -764,7 +764,8 @@ def monitor (v : Variant) (evs : List Ev) (rawNotes : List (List String)) : Opti
   let rec go (m : MonSt) : List Ev → Option String
     | [] =>
       if rawNotes.any (fun n => n.head? = some "lost") then
-        some (withStale m s!"lost_sleeper fibers {m.open_.map (·.1)} never resumed although virtual time went far beyond every deadline and every kernel thread kept polling")
+        let ids := (rawNotes.find? (fun n => n.head? = some "lost")).map (·.drop 1) |>.getD []
+        some (withStale m s!"lost_sleeper fibers {ids} are parked in fiber_sleep while sleep_spinlock is free although they are not in the sleepers tree (or overdue in it): nothing can wake them any more")
       else if rawNotes.any (fun n => n.head? = some "starved") then
         some (withStale m "others_starved a runnable fiber made no progress while other fibers slept")
       else m.staleMsg
